@@ -4,7 +4,7 @@
 (* compound-priority tables and mc=1 execution orders observed on the real *)
 (* library, under several PYTHONHASHSEEDs, are compared with               *)
 (* CompoundPriority.tla.  Input (IOEnv.CASE_FILE): {"rows": [row, ...]}    *)
-(* row = {n, deps, prio, prio2, cp_build, cp_reconf, order, order2,        *)
+(* row = {n, deps, prio, prio2, cp_build, cp_reconf, cp_reconf2, order, order2,        *)
 (*        subs: [[gmask, cp...], ...], hs}                                 *)
 (***************************************************************************)
 EXTENDS CompoundPriority, TLC, Json, IOUtils
@@ -32,6 +32,7 @@ Bad(W) ==
   IN Clauses({
        <<W.cp_build # doc, "C07.table">>,
        <<W.cp_reconf # doc2, "C07.reconf">>,
+       <<W.cp_reconf2 # doc2, "C07.reconf-again">>,
        <<\E s \in RangeOf(W.subs) : \E k \in Bits(n, s[1]) : s[k + 1] # doc[k], "C07.subgraph">>,
        <<~ValidOrder(n, deps, doc, all, W.order), "C07.order">>,
        <<~ValidOrder(n, deps, doc2, all, W.order2), "C07.order-reconf">>,
